@@ -93,6 +93,7 @@ package gitindex
 //@ abstract func ignored(m *ignore.Matcher, p string) bool
 //@ func ignore.(*Matcher).Match
 //@   trusted
+//@   flag only_for=gitindex.
 //@   ensures result == ignored(m, path)
 //@   assigns nothing
 
